@@ -479,4 +479,155 @@ def compositeRun {α β : Type} (clr : α → α) (fresh : Nat → WManifold α 
     | none => none
     | some (ws', ms') => compositeRun clr fresh ws' ms' rest
 
+/-! ## 2-D `contact_manifold_capsule_capsule` (`contact_manifolds_capsule_capsule.rs`, `dim2`)
+
+Closed form: closest points of the two axes (`closest_points_segment_segment_with_locations_nD`), one contact
+there; if the axes are within 22.5° of (anti)parallel and the normal within 22.5° of their perpendicular, a second
+contact from `clip_segment_segment_with_normal`.  There is no warm start in this generator: the previous points
+only feed `match_contacts` (contact user data, not modelled), so the geometry is a function of the pose.
+`ulps` is `approx::ulps_eq!` (bit-level at `Float`; the theorems hold for every such predicate). -/
+
+/-- `f64::EPSILON` = `DEFAULT_EPSILON` -/
+def epsilon : K := lit 1 4503599627370496
+/-- `COS_FRAC_PI_8`, `SIN_FRAC_PI_8` (`src/utils/consts.rs`) -/
+def cosFracPi8 : K := Num.ofRat (92387953251 / 100000000000)
+def sinFracPi8 : K := Num.ofRat (38268343236 / 100000000000)
+
+/-- `na::clamp(x, 0, 1)`: `if val > min { if val < max { val } else { max } } else { min }` -/
+def clamp01 (x : K) : K := if 0 < x then (if x < 1 then x else 1) else 0
+
+/-- the parameters `(s, t)` of `closest_points_segment_segment_with_locations_nD` (2-D instance) -/
+def segSegParams2 (ulps : K → K → Bool) (a1 b1 a2 b2 : V2 K) : K × K :=
+  let d1 := b1.sub a1
+  let d2 := b2.sub a2
+  let r := a1.sub a2
+  let a := d1.normSq
+  let e := d2.normSq
+  let f := d2.dot r
+  if a ≤ epsilon ∧ e ≤ epsilon then (0, 0)
+  else if a ≤ epsilon then (0, clamp01 (f / e))
+  else
+    let c := d1.dot r
+    if e ≤ epsilon then (clamp01 (-c / a), 0)
+    else
+      let b := d1.dot d2
+      let ae := a * e
+      let bb := b * b
+      let denom := ae - bb
+      let s := if epsilon < denom ∧ !(ulps ae bb) then clamp01 ((b * f - c * e) / denom) else 0
+      let t := (b * s + f) / e
+      if t < 0 then (clamp01 (-c / a), 0)
+      else if 1 < t then (clamp01 ((b - c) / a), 1)
+      else (s, t)
+
+/-- `SegmentPointLocation::barycentric_coordinates()` of the location built from the parameter `s`:
+`s == 0 → OnVertex(0) → [1, 0]`, `s == 1 → OnVertex(1) → [0, 1]`, else `OnEdge([1 - s, s])` -/
+def bcoords (s : K) : K × K := if neq s 0 then (1, 0) else if neq s 1 then (0, 1) else (1 - s, s)
+
+/-- `seg.a * bcoords[0] + seg.b.coords * bcoords[1]` -/
+def baryPoint2 (a b : V2 K) (bc : K × K) : V2 K := (a.smul bc.1).add (b.smul bc.2)
+
+/-- `Unit::try_new(v, min_norm)`: `sq_norm > min_norm * min_norm`, then `v / sqrt(sq_norm)` -/
+def tryNew2 (v : V2 K) (minNorm : K) : Option (V2 K) :=
+  let sqn := v.normSq
+  if minNorm * minNorm < sqn then some (v.sdiv (Num.sqrt sqn)) else none
+
+/-- `utils::inv`: `0` at `0`, else `1 / x` -/
+def inv0 (x : K) : K := if neq x 0 then 0 else 1 / x
+
+/-- a clipping point pair (`ClippingPoints` without the feature ids): a point on segment 1, a point on segment 2 -/
+structure ClipPt (K : Type) where
+  p1 : V2 K
+  p2 : V2 K
+
+/-- the lower end `ca` of the common range, for segments already oriented by increasing tangent coordinate
+(`r10 ≤ r11` are the coordinates of `s10, s11`; `r20 ≤ r21` those of `s20, s21`) -/
+def clipLo (r10 r11 r20 r21 : K) (s10 s11 s20 s21 : V2 K) : ClipPt K :=
+  if r10 < r20 then
+    let bc := (r20 - r10) * inv0 (r11 - r10)
+    ⟨s10.add ((s11.sub s10).smul bc), s20⟩
+  else
+    let bc := (r10 - r20) * inv0 (r21 - r20)
+    ⟨s10, s20.add ((s21.sub s20).smul bc)⟩
+
+/-- the upper end `cb` of the common range -/
+def clipHi (r10 r11 r20 r21 : K) (s10 s11 s20 s21 : V2 K) : ClipPt K :=
+  if r21 < r11 then
+    let bc := (r21 - r10) * inv0 (r11 - r10)
+    ⟨s10.add ((s11.sub s10).smul bc), s21⟩
+  else
+    let bc := (r11 - r20) * inv0 (r21 - r20)
+    ⟨s11, s20.add ((s21.sub s20).smul bc)⟩
+
+/-- the part of `clip_segment_segment_with_normal` after the two `if range[1] < range[0] { swap }` -/
+def clipOrdered (r10 r11 r20 r21 : K) (s10 s11 s20 s21 : V2 K) : Option (ClipPt K × ClipPt K) :=
+  -- `if range2[0] > range1[1] || range1[0] > range2[1] { return None }`
+  if r11 < r20 ∨ r21 < r10 then none
+  else some (clipLo r10 r11 r20 r21 s10 s11 s20 s21, clipHi r10 r11 r20 r21 s10 s11 s20 s21)
+
+/-- `clip_segment_segment_with_normal(seg1, seg2, normal)` (2-D): both segments are projected on the tangent
+`(-n.y, n.x)`, each is oriented by increasing tangent coordinate (the two swaps), and the two ends of the common
+range are returned as point pairs. -/
+def clipSegSegWithNormal (a1 b1 a2 b2 n : V2 K) : Option (ClipPt K × ClipPt K) :=
+  let tangent : V2 K := ⟨-n.y, n.x⟩
+  let u10 := a1.dot tangent
+  let u11 := b1.dot tangent
+  let u20 := a2.dot tangent
+  let u21 := b2.dot tangent
+  if u11 < u10 then
+    if u21 < u20 then clipOrdered u11 u10 u21 u20 b1 a1 b2 a2
+    else clipOrdered u11 u10 u20 u21 b1 a1 a2 b2
+  else
+    if u21 < u20 then clipOrdered u10 u11 u21 u20 a1 b1 b2 a2
+    else clipOrdered u10 u11 u20 u21 a1 b1 a2 b2
+
+/-- the raw second contact (before the radii are applied): clip point pair and its distance along the normal.
+`(clip_a.0 - local_p1).norm_squared() > EPSILON * 100` chooses `clip_a`, else `clip_b`; **each with the distance
+of its own pair**. -/
+def secondContact2 (pos12 : Iso2 K) (a1 b1 a2' b2' lp1 n1 : V2 K) : List (Contact2 K) :=
+  match tryNew2 (b1.sub a1) epsilon, tryNew2 (b2'.sub a2') epsilon with
+  | some dir1, some dir2 =>
+    if cosFracPi8 ≤ nabs (dir1.dot dir2) ∧ nabs (dir1.dot n1) < sinFracPi8 then
+      match clipSegSegWithNormal a1 b1 a2' b2' n1 with
+      | some (ca, cb) =>
+        if epsilon * lit 100 < (ca.p1.sub lp1).normSq then
+          [⟨ca.p1, pos12.invAct ca.p2, (ca.p2.sub ca.p1).dot n1⟩]
+        else
+          [⟨cb.p1, pos12.invAct cb.p2, (cb.p2.sub cb.p1).dot n1⟩]
+      | none => []
+    else []
+  | _, _ => []
+
+/-- the final loop: `local_p1 += n1 * r1; local_p2 += n2 * r2; dist -= r1 + r2` -/
+def applyRadii2 (n1 n2 : V2 K) (r1 r2 : K) (c : Contact2 K) : Contact2 K :=
+  ⟨c.p1.add (n1.smul r1), c.p2.add (n2.smul r2), c.dist - (r1 + r2)⟩
+
+/-- the closest points of the two axes (frame of capsule 1) and the contact normal
+`Unit::try_new(p2 − p1, EPSILON).unwrap_or(Vector::y_axis())` -/
+def capsuleAxisPoints2 (ulps : K → K → Bool) (a1 b1 a2' b2' : V2 K) : V2 K × V2 K × V2 K :=
+  let st := segSegParams2 ulps a1 b1 a2' b2'
+  let lp1 := baryPoint2 a1 b1 (bcoords st.1)
+  let lp21 := baryPoint2 a2' b2' (bcoords st.2)
+  let n1 : V2 K := match tryNew2 (lp21.sub lp1) epsilon with | some n => n | none => ⟨0, 1⟩
+  (lp1, lp21, n1)
+
+/-- `contact_manifold_capsule_capsule(pos12, capsule1, capsule2, prediction, manifold)` (2-D), geometry. -/
+def capsuleCapsule2 (ulps : K → K → Bool) (pos12 : Iso2 K) (a1 b1 : V2 K) (r1 : K) (a2 b2 : V2 K) (r2 pred : K)
+    (m : Manifold2 K) : Manifold2 K :=
+  let a2' := pos12.act a2
+  let b2' := pos12.act b2
+  let ax := capsuleAxisPoints2 ulps a1 b1 a2' b2'
+  let lp1 := ax.1
+  let lp21 := ax.2.1
+  let n1 := ax.2.2
+  let dist := (lp21.sub lp1).dot n1
+  if dist ≤ pred + r1 + r2 then
+    let n2 := pos12.invRot n1.neg
+    let c0 : Contact2 K := ⟨lp1, pos12.invAct lp21, dist⟩
+    let pts := (c0 :: secondContact2 pos12 a1 b1 a2' b2' lp1 n1).map (applyRadii2 n1 n2 r1 r2)
+    ⟨pts, n1, n2⟩
+  else
+    -- `manifold.clear(); return` (the normals keep their previous values)
+    m.clear
+
 end C14
